@@ -962,6 +962,12 @@ func (c *cenv) Lookup(name string, old bool) (SV, bool) {
 	case "height":
 		return SV{T: x.blockHeight(), Sort: "Int"}, true
 	}
+	// a package-level variable of the function's package (e.g. a generated enum table)
+	if c.pkg != nil && !strings.Contains(name, ".") {
+		if g, ok := c.pkg.Members[name].(*ssa.Global); ok {
+			return x.toSV(st, x.loadGlobal(st, g))
+		}
+	}
 	// a local variable that is not (yet) defined on this path: unconstrained
 	if t, ok := x.localTypes[name]; ok && !old {
 		return x.toSV(st, x.freshTV("undef_"+name, t, nil))
